@@ -29,9 +29,11 @@ theorem C01_F_enumBitMap_enum_witness :
 
 /-- `type C int; const CA C = 1; func f() { const tmp C = 7 }` (former region F_enumForeignConst, repaired in
     /repo 17b8707 / b44c047): the const declarations inside function bodies play no role, the run is all-ok -/
-theorem C01_enumForeignConst_fixed (ls : List (List VSpec)) :
-    c01Region { c01Pkg false ['C'] [tspec ['C', 'A'] ['C'] 1] with locals := ls } = "WF" ∧
-    c01Model { c01Pkg false ['C'] [tspec ['C', 'A'] ['C'] 1] with locals := ls } = (0, true, true) := by
+theorem C01_enumForeignConst_fixed (p : PkgCase) (ls : List (List VSpec)) :
+    c01Region { p with locals := ls } = c01Region p ∧ c01Model { p with locals := ls } = c01Model p := ⟨rfl, rfl⟩
+
+example : c01Region { c01Pkg false ['C'] [tspec ['C', 'A'] ['C'] 1] with locals := [[tspec ['t', 'm', 'p'] ['C'] 7]] } = "WF" ∧
+    c01Model { c01Pkg false ['C'] [tspec ['C', 'A'] ['C'] 1] with locals := [[tspec ['t', 'm', 'p'] ['C'] 7]] } = (0, true, true) := by
   decide
 
 /-- `type Format int; const ( json Format = iota; xml )` with -json: the constant collides with the import -/
